@@ -23,6 +23,54 @@ def all_inputs(nk_active, maxlen):
             yield list(w)
 
 
+def plain_grammar_text(job):
+    """The specification CFG of a job printed as a plain LALRPOP grammar (no sugar at all)."""
+    import re as _re
+    from corpus import gram as GG
+    cfg_all, starts = GG.to_cfg(job.g, job.feats)
+    ren = {}
+
+    def nm(a):
+        if a not in ren:
+            ren[a] = "N%d_%s" % (len(ren), _re.sub(r"[^A-Za-z0-9]", "", a)[:12])
+        return ren[a]
+    terms_, _ = GG.apply_cfg(job.g, set(job.feats))
+    nts = []
+    for a, ps in cfg_all.prods.items():
+        alts = []
+        for p in ps:
+            syms = []
+            for s_ in p:
+                if C.is_term(s_):
+                    if s_[1:] == GG.ERROR_TERM:
+                        syms.append(GG.Err())
+                    else:
+                        syms.append(GG.Tm(s_[1:]))
+                else:
+                    syms.append(GG.Nt(nm(s_)))
+            alts.append(GG.Alt(syms))
+        nts.append(GG.NT(nm(a), alts, pub=(a in starts)))
+    g2 = GG.Grammar(job.g.name, [GG.Term(t.name, t.variant, t.payload, [], getattr(t, "bare", False)) for t in terms_], nts)
+    # bare terminals are referenced as identifiers
+    bare = {t.name for t in terms_ if getattr(t, "bare", False)}
+    if bare:
+        for n in g2.nts:
+            for a in n.alts:
+                a.syms = [GG.Nt(x.name) if isinstance(x, GG.Tm) and x.name in bare else x for x in a.syms]
+    return GG.to_lalrpop(g2, force_lalr=K.ALGOS[job.algo][0])
+
+
+def compress(names):
+    out, i = [], 0
+    while i < len(names):
+        j = i
+        while j < len(names) and names[j] == names[i]:
+            j += 1
+        out.append(names[i] if j - i == 1 else "%s^%d" % (names[i], j - i))
+        i = j
+    return " ".join(out)
+
+
 def replay_files(job, kinds, observed, complaints, extra=None, nat=None, orc=None):
     exp = None
     if orc is not None:
@@ -48,7 +96,7 @@ def replay_files(job, kinds, observed, complaints, extra=None, nat=None, orc=Non
 
 
 def run_property(pid, tier, jobs, *, native_len, timeout_s, functions, assumptions, level_note_extra="",
-                 crate_name=None, kani_jobs=None):
+                 crate_name=None, kani_jobs=None, deep=False):
     t0 = time.time()
     known = K.load_known_findings().get(pid, {})
     crate, accepted, rejected = e1.prepare(jobs, crate_name or ("e1_" + pid.lower()))
@@ -56,7 +104,21 @@ def run_property(pid, tier, jobs, *, native_len, timeout_s, functions, assumptio
     violations = []      # (key, text, replay_path)
     known_hit = []
     for j in rejected:
-        inconclusive.append("generator rejected corpus grammar %s [%s]: %s" % (j.g.name, j.algo, j.gen.out.strip().splitlines()[-1:] ))
+        msg = j.gen.out.strip().splitlines()[-1:]
+        # differential: the documented desugaring of the same grammar, written out as a plain grammar, under the same algorithm
+        try:
+            plain = plain_grammar_text(j)
+            pg = K.run_generator(plain, j.g.name + "_plain", env=dict(K.ALGOS[j.algo][1]), features=None)
+        except Exception as ex:
+            plain, pg = None, None
+        if pg is not None and pg.ok:
+            key = "rejects:%s:%s" % (j.g.name, j.algo)
+            if not any(v[0] == key for v in violations):
+                violations.append((key, "the generator rejects corpus grammar %s [%s] (%s) although the plain grammar the documentation says it stands for is accepted" % (j.g.name, j.algo, msg),
+                                   {"grammar.lalrpop": j.text, "documented_desugaring.lalrpop": plain, "generator.out": j.gen.out[-3000:],
+                                    "case.json": json.dumps({"grammar": j.g.name, "algorithm": j.algo, "features": sorted(j.feats), "kind": "rejected"})}))
+        else:
+            inconclusive.append("generator rejected corpus grammar %s [%s]: %s" % (j.g.name, j.algo, msg))
     # ---- native validation of the model against the real driver + public API ------------------
     traces = 0
     nat = None
@@ -84,6 +146,32 @@ def run_property(pid, tier, jobs, *, native_len, timeout_s, functions, assumptio
                 key = "native:%s:%s:%s:%s" % (j.g.name, j.algo, j.start, "_".join(map(str, w)))
                 violations.append((key, "%s on input %s: %s" % (j.key(), [j.g.terms[k].name for k in w], "; ".join(bad)),
                                    replay_files(j, w, obs, bad, nat=nat, orc=orc)))
+    # ---- deep stacks (native): pumped inputs longer than the number of LR states, each followed by every terminal and by EOF
+    deep_traces = 0
+    if deep and accepted:
+        queries, meta = [], []
+        for j in accepted:
+            if j.info and j.info.get(j.start, {}).get("recovery"):
+                continue
+            nstates = j.gen.rs.count("// State ") // 2 // max(1, len(j.info or {1: 1}))
+            act = [i for i, a in enumerate(j.spec.active) if a]
+            for w in native.deep_inputs(j.spec, max(nstates, 4), max_words=12 if tier == "quick" else 40):
+                for tail in [[]] + [[t] for t in act]:
+                    queries.append((j.modname, j.start, w + tail))
+                    meta.append((j, w + tail))
+        if queries:
+            res = nat.run(queries)
+            for (j, w), obs in zip(meta, res):
+                deep_traces += 1
+                exp = native.deep_expect(j.spec, w)
+                bad = [b for b in native.check_expect(exp, w, obs, canonical=(j.algo == "lr1")) if relevant(pid, b)]
+                if bad:
+                    key = "deep:%s:%s:%s:%d" % (j.g.name, j.algo, j.start, len(w))
+                    if not any(v[0] == key for v in violations):
+                        exp2 = dict(exp, valid_next=sorted(exp["valid_next"])) if "valid_next" in exp else exp
+                        violations.append((key, "%s on the deep input %s (%d tokens): %s" % (j.key(), compress([j.g.terms[k].name for k in w]), len(w), "; ".join(bad)),
+                                           dict(replay_files(j, w, obs, bad, nat=nat), **{"expected.json": json.dumps(exp2)})))
+        traces += deep_traces
     # ---- Kani ---------------------------------------------------------------------------------
     hs = [h for j in accepted for h in j.harnesses]
     byh = {h: j for j in accepted for h in j.harnesses}
@@ -185,6 +273,7 @@ def run_property(pid, tier, jobs, *, native_len, timeout_s, functions, assumptio
         "grammars": grammars,
         "configurations": sorted({"%s/%s/%s" % (j.algo, ",".join(sorted(j.feats)) or "-", "env" if j.feat_env else "cli") for j in accepted}),
         "functions_encoded": functions,
+        "deep_stack_native_runs": deep_traces,
         "bounds": {"max_tokens_N": sorted({j.n for j in accepted}), "native_validation_max_len": native_len,
                    "per_harness_timeout_s": timeout_s,
                    "outside": "inputs longer than N tokens; grammars outside the corpus; recursive-ascent backend"},
